@@ -17,6 +17,8 @@ Enabled(Kind, s, call) ==
   CASE call.fn = "Listen"  -> s.active = 0
     [] call.fn = "Stop"    -> s.lastL # 0
     [] call.fn = "CloseIn" -> Kind = "midicat" \/ s.active = 0
+    [] call.fn = "OpenInFail"  -> ~s.inOpen       \* the backing process cannot be started
+    [] call.fn = "OpenOutFail" -> ~s.outOpen
     [] OTHER -> TRUE
 
 Delivers(Kind, s) == s.outOpen /\ s.active # 0 /\ (Kind = "midicat" => s.inOpen)
@@ -25,6 +27,7 @@ Delivers(Kind, s) == s.outOpen /\ s.active # 0 /\ (Kind = "midicat" => s.inOpen)
 PStep(Kind, s, call) ==
   CASE call.fn = "OpenIn"   -> [s |-> [s EXCEPT !.inOpen = TRUE], ret |-> "nil", dlv |-> <<>>]
     [] call.fn = "CloseIn"  -> [s |-> [s EXCEPT !.inOpen = FALSE, !.active = 0], ret |-> "nil", dlv |-> <<>>]
+    [] call.fn \in {"OpenInFail", "OpenOutFail"} -> [s |-> s, ret |-> "err", dlv |-> <<>>]    \* reported, nothing changes, no call hangs
     [] call.fn = "OpenOut"  -> [s |-> [s EXCEPT !.outOpen = TRUE], ret |-> "nil", dlv |-> <<>>]
     [] call.fn = "CloseOut" -> [s |-> [s EXCEPT !.outOpen = FALSE], ret |-> "nil", dlv |-> <<>>]
     [] call.fn = "Listen"   -> [s |-> [s EXCEPT !.inOpen = TRUE, !.active = s.lastL + 1, !.lastL = s.lastL + 1],   \* ListenTo opens the port
